@@ -435,7 +435,8 @@ Record program := {
   p_code : list instr;
   p_res : list resource;
   p_sources : list nat;
-  p_needed : list (nat * list nat)
+  p_needed : list (nat * list nat);
+  p_vars : list (N * nat)    (* varIdx: name -> resource address (not part of the Go Program; used to relate to Sem) *)
 }.
 
 Definition empty_cstate : cstate := {| c_code := []; c_res := []; c_sources := []; c_vars := []; c_needed := [] |}.
@@ -444,5 +445,6 @@ Definition compile (s : script) : option program :=
   if N.ltb max_vars (N.of_nat (length (s_vars s))) then None
   else match (visit_all visit_var (s_vars s) ;; visit_all visit_stmt (s_stmts s)) empty_cstate with
        | None => None
-       | Some (_, c) => Some {| p_code := c_code c; p_res := c_res c; p_sources := c_sources c; p_needed := c_needed c |}
+       | Some (_, c) => Some {| p_code := c_code c; p_res := c_res c; p_sources := c_sources c; p_needed := c_needed c;
+                               p_vars := c_vars c |}
        end.
